@@ -15,8 +15,9 @@ required to have the shape
     ... tol_history[:i + SLICE] ...                       (the only slice of tol_history)
 
 and (START, STOP, ALLOC, STORE, SLICE, has_early, DECR) is emitted.  Methods with a nested record
-(2-D tol_history: brpls, pspline_brpls, goldindec) are emitted by name only; the Coq side holds the
-list of names it expects there.  Anything else that stores into tol_history raises TranslateError.
+(2-D tol_history: brpls, pspline_brpls, goldindec) are emitted by name in GenLoops (the Coq side holds the
+list of names it expects there) and, by the generator GenNested, with the parameters of their two-level
+bookkeeping (see _nested_desc and coq/C01/Nested.v).  Anything else that stores into tol_history raises TranslateError.
 """
 import ast
 import os
@@ -186,6 +187,197 @@ def _method_loop(fn, where):
     return (start, stop, alloc_off, store_offs.pop(), slices.pop(), early, decr)
 
 
+def _const(node):
+    if isinstance(node, ast.Constant) and isinstance(node.value, int) and not isinstance(node.value, bool):
+        return node.value
+    raise TranslateError(f'integer constant expected, got {ast.unparse(node)}')
+
+
+def _max_plus(node, names, where):
+    """node = max(a, b) [+ c] with {a, b} == names  ->  c"""
+    off = 0
+    if isinstance(node, ast.BinOp) and isinstance(node.op, (ast.Add, ast.Sub)):
+        c = _const(node.right)
+        off = c if isinstance(node.op, ast.Add) else -c
+        node = node.left
+    if not (isinstance(node, ast.Call) and isinstance(node.func, ast.Name) and node.func.id == 'max'
+            and len(node.args) == 2 and not node.keywords
+            and all(isinstance(x, ast.Name) for x in node.args)
+            and {x.id for x in node.args} == set(names)):
+        raise TranslateError(f'{where}: expected max({", ".join(names)}) [+ c], got {ast.unparse(node)}')
+    return off
+
+
+def _range1(it, var, where):
+    """range(var + c) -> c"""
+    if not (isinstance(it, ast.Call) and isinstance(it.func, ast.Name) and it.func.id == 'range'
+            and not it.keywords and len(it.args) == 1):
+        raise TranslateError(f'{where}: loop iterable {ast.unparse(it)}')
+    u, c = _linear(it.args[0], var)
+    if not u:
+        raise TranslateError(f'{where}: range {ast.unparse(it)} does not depend on {var}')
+    return c
+
+
+def _assigns_name(node, name):
+    for n in ast.walk(node):
+        if isinstance(n, (ast.Assign, ast.AugAssign, ast.For)):
+            tg = n.targets if isinstance(n, ast.Assign) else [n.target]
+            for t in tg:
+                for x in ast.walk(t):
+                    if isinstance(x, ast.Name) and x.id == name and isinstance(x.ctx, ast.Store):
+                        return True
+    return False
+
+
+def _nested_desc(fn, where):
+    """The bookkeeping of a method with a nested (2-D) record; see coq/C01/Nested.v.  Fail-closed."""
+    allocs = [n for n in ast.walk(fn) if isinstance(n, ast.Assign) and any(_is_hist(t) for t in n.targets)]
+    if len(allocs) != 1:
+        raise TranslateError(f'{where}: {len(allocs)} allocations of {HIST}')
+    alloc = allocs[0].value
+    fname = ast.unparse(alloc.func)
+    shape = alloc.args[0]
+    if not (isinstance(shape, ast.Tuple) and len(shape.elts) == 2):
+        raise TranslateError(f'{where}: nested allocation shape {ast.unparse(shape)}')
+    u, arows = _linear(shape.elts[0], 'max_iter_2')
+    if not u:
+        raise TranslateError(f'{where}: rows {ast.unparse(shape.elts[0])} do not depend on max_iter_2')
+    acols = _max_plus(shape.elts[1], ('max_iter', 'max_iter_2'), where)
+    # the loops: exactly one outer loop in the function body, exactly one inner loop directly in it
+    outers = [n for n in fn.body if isinstance(n, ast.For)]
+    if len(outers) != 1 or [n for n in ast.walk(fn) if isinstance(n, (ast.For, ast.While))].__len__() != 2:
+        raise TranslateError(f'{where}: expected exactly one outer and one inner loop')
+    outer = outers[0]
+    inners = [n for n in outer.body if isinstance(n, ast.For)]
+    if len(inners) != 1 or outer.orelse or inners[0].orelse:
+        raise TranslateError(f'{where}: inner loop is not a direct statement of the outer loop')
+    inner = inners[0]
+    if not (isinstance(outer.target, ast.Name) and isinstance(inner.target, ast.Name)):
+        raise TranslateError(f'{where}: loop targets')
+    iv, jv = outer.target.id, inner.target.id
+    ostop = _range1(outer.iter, 'max_iter_2', where)
+    istop = _range1(inner.iter, 'max_iter', where)
+    # j_max = 0 before the loops, j_max = max(j, j_max) right after the inner loop, nowhere else
+    jm_assigns = [n for n in ast.walk(fn) if isinstance(n, (ast.Assign, ast.AugAssign))
+                  and any(isinstance(t, ast.Name) and t.id == 'j_max'
+                          for t in (n.targets if isinstance(n, ast.Assign) else [n.target]))]
+    pos_inner = outer.body.index(inner)
+    nxt = outer.body[pos_inner + 1] if pos_inner + 1 < len(outer.body) else None
+    init = [n for n in fn.body if isinstance(n, ast.Assign) and ast.unparse(n) == 'j_max = 0']
+    if not (len(jm_assigns) == 2 and len(init) == 1 and fn.body.index(init[0]) < fn.body.index(outer)
+            and nxt is not None and ast.unparse(nxt) in (f'j_max = max({jv}, j_max)', f'j_max = max(j_max, {jv})')):
+        raise TranslateError(f'{where}: j_max bookkeeping not recognised')
+    # inner body: [early-exit block] ... store ... tolerance test
+    early, decr, irow, force = False, 0, None, False
+    seen_store = seen_test = False
+    for st in inner.body:
+        if isinstance(st, ast.If) and isinstance(st.test, ast.Name) and st.test.id == 'exit_early':
+            decs = [x for x in st.body if isinstance(x, ast.AugAssign)]
+            if not (not st.orelse and isinstance(st.body[-1], ast.Break) and len(decs) == 1
+                    and isinstance(decs[0].op, ast.Sub) and isinstance(decs[0].target, ast.Name)
+                    and decs[0].target.id == jv and not seen_store and not early
+                    and not any(_stores(x) for x in st.body)
+                    and sum(isinstance(x, ast.Break) for x in ast.walk(st)) == 1):
+                raise TranslateError(f'{where}: inner early-exit block not recognised')
+            early, decr = True, _const(decs[0].value)
+            force = any(isinstance(x, ast.Assign) and ast.unparse(x) == 'tol_2 = np.inf' for x in st.body)
+            continue
+        if _assigns_name(st, jv) or _assigns_name(st, iv):
+            raise TranslateError(f'{where}: loop variable re-assigned in the inner loop')
+        sts = _stores(st)
+        if sts:
+            if not (isinstance(st, ast.Assign) and len(sts) == 1 and sts[0] is st and not seen_store and not seen_test):
+                raise TranslateError(f'{where}: conditional, repeated or late store in the inner loop')
+            sl = st.targets[0].slice
+            if not (isinstance(sl, ast.Tuple) and len(sl.elts) == 2 and isinstance(sl.elts[1], ast.Name)
+                    and sl.elts[1].id == jv):
+                raise TranslateError(f'{where}: inner store index {ast.unparse(sl)}')
+            u, irow = _linear(sl.elts[0], iv)
+            if not u:
+                raise TranslateError(f'{where}: inner store row {ast.unparse(sl.elts[0])}')
+            seen_store = True
+            continue
+        if any(isinstance(x, ast.Break) for x in ast.walk(st)):
+            if not (isinstance(st, ast.If) and not st.orelse and isinstance(st.body[-1], ast.Break)
+                    and sum(isinstance(x, ast.Break) for x in ast.walk(st)) == 1
+                    and isinstance(st.test, ast.Compare) and len(st.test.ops) == 1
+                    and isinstance(st.test.ops[0], ast.Lt) and isinstance(st.test.comparators[0], ast.Name)
+                    and st.test.comparators[0].id == 'tol' and seen_store and not seen_test):
+                raise TranslateError(f'{where}: inner break not recognised: {ast.unparse(st)[:80]}')
+            seen_test = True
+    if not (seen_store and seen_test):
+        raise TranslateError(f'{where}: inner loop without store / tolerance test')
+    # outer body: unconditional stores tol_history[k, i] with k = 0, 1, .. in program order
+    orows = 0
+    for st in outer.body:
+        if st is inner:
+            continue
+        if _assigns_name(st, iv) or (st is not nxt and _assigns_name(st, jv)):
+            raise TranslateError(f'{where}: loop variable re-assigned in the outer loop')
+        sts = _stores(st)
+        if sts:
+            if not (isinstance(st, ast.Assign) and len(sts) == 1 and sts[0] is st
+                    and outer.body.index(st) > pos_inner):
+                raise TranslateError(f'{where}: conditional store (or store before the inner loop) in the outer loop')
+            sl = st.targets[0].slice
+            if not (isinstance(sl, ast.Tuple) and len(sl.elts) == 2 and isinstance(sl.elts[1], ast.Name)
+                    and sl.elts[1].id == iv and _const(sl.elts[0]) == orows):
+                raise TranslateError(f'{where}: outer store index {ast.unparse(sl)} (expected row {orows}, column {iv})')
+            orows += 1
+    if len(_stores(fn)) != orows + 1:
+        raise TranslateError(f'{where}: {HIST} is stored somewhere else as well')
+    # the only read: tol_history[:i + r, :max(i, j_max) + c]
+    reads = [n for n in ast.walk(fn) if isinstance(n, ast.Subscript) and _is_hist(n.value) and isinstance(n.ctx, ast.Load)]
+    names = [n for n in ast.walk(fn) if _is_hist(n) and isinstance(n.ctx, ast.Load)]
+    if len(reads) != 1 or len(names) != 1 + orows + 1:
+        raise TranslateError(f'{where}: reads of {HIST}: {len(reads)} subscripts, {len(names)} mentions')
+    sl = reads[0].slice
+    if not (isinstance(sl, ast.Tuple) and len(sl.elts) == 2 and all(
+            isinstance(x, ast.Slice) and x.lower is None and x.step is None and x.upper is not None for x in sl.elts)):
+        raise TranslateError(f'{where}: final slice {ast.unparse(sl)}')
+    u, srow = _linear(sl.elts[0].upper, iv)
+    if not u:
+        raise TranslateError(f'{where}: slice rows {ast.unparse(sl.elts[0].upper)}')
+    scol = _max_plus(sl.elts[1].upper, (iv, 'j_max'), where)
+    if any(isinstance(n, ast.Subscript) and _is_hist(n.value) and n not in reads
+           and not isinstance(n.ctx, ast.Store) for n in ast.walk(fn)):
+        raise TranslateError(f'{where}: other use of {HIST}')
+    return dict(ostop=ostop, istop=istop, arows=arows, acols=acols, irow=irow, orows=orows, srow=srow, scol=scol,
+                early=early, decr=decr, force=force, zeros=(fname == 'np.zeros'))
+
+
+def gen_nested(repo=None):
+    out = []
+    for rel in FILES:
+        tree, _ = _parse(os.path.join('pybaselines', rel), repo)
+        mod = rel[:-3].replace('/', '.')
+        for cls in [n for n in tree.body if isinstance(n, ast.ClassDef)]:
+            for fn in [n for n in cls.body if isinstance(n, ast.FunctionDef)]:
+                if not any('_register' in ast.unparse(d) for d in fn.decorator_list):
+                    continue
+                name = f'{mod}.{fn.name}'
+                if _method_loop(fn, name) == 'nested':
+                    out.append((name, _nested_desc(fn, name)))
+    lines = ['(* Generated by tools/gen_loops.py (GenNested) from the current /repo source; do not edit. *)',
+             'From Coq Require Import ZArith List String.',
+             'From PB Require Import C01.Nested.',
+             'Import ListNotations.',
+             'Open Scope Z_scope.',
+             'Open Scope string_scope.',
+             '',
+             'Definition nested_descs : list (string * ndesc) := [']
+    for k, (name, d) in enumerate(out):
+        sep = ';' if k + 1 < len(out) else ''
+        b = lambda v: 'true' if v else 'false'   # noqa
+        lines.append(f'  ("{name}", {{| n_ostop := {zlit(d["ostop"])}; n_istop := {zlit(d["istop"])}; n_arows := {zlit(d["arows"])}; '
+                     f'n_acols := {zlit(d["acols"])}; n_irow := {zlit(d["irow"])}; n_orows := {d["orows"]}%nat; '
+                     f'n_srow := {zlit(d["srow"])}; n_scol := {zlit(d["scol"])}; n_early := {b(d["early"])}; '
+                     f'n_decr := {zlit(d["decr"])}; n_force := {b(d["force"])}; n_zeros := {b(d["zeros"])} |}}){sep}')
+    lines.append('].')
+    return '\n'.join(lines) + '\n'
+
+
 def gen_loops(repo=None):
     regular, nested = [], []
     for rel in FILES:
@@ -224,4 +416,4 @@ def gen_loops(repo=None):
     return '\n'.join(lines) + '\n'
 
 
-GENERATORS = {'GenLoops': gen_loops}
+GENERATORS = {'GenLoops': gen_loops, 'GenNested': gen_nested}
